@@ -24,12 +24,15 @@ CORE = ["DoExec", "DoStartReached", "DoDelayReached", "DoInitiateEnd", "DoEndBeg
 
 def mc(ctx, T, sfx):
     # one member, messages, every error path: all actions must be covered
-    r = ctx.tlc(SPEC, "SyncMachine", cfg="MC_Core" + sfx, coverage=True, label="MC_Core", timeout=ctx.pick(600, 3000))
+    r = ctx.tlc(SPEC, "SyncMachine", cfg="MC_Core", coverage=True, label="MC_Core", timeout=ctx.pick(600, 1800))
     ctx.require_coverage(r, CORE + ["DoArrive", "DoHandOff", "DoFailStart", "DoFailDelay", "DoFailInitiate",
                                     "DoFailWaiter", "DoFailNext"], "MC_Core")
-    # block arithmetic over many protocols; two members (any interleaving); two members, prompt scheduler
-    for cfg, floor in (("MC_Blocks", 20000), ("MC_Pair", 10000), ("MC_Prompt", 5000)):
-        r = ctx.tlc(SPEC, "SyncMachine", cfg=cfg + sfx, label=cfg, timeout=ctx.pick(600, 3000))
+    # larger bounds; block arithmetic over many protocols; two members (any interleaving); members with a prompt scheduler
+    runs = [("MC_Blocks", 20000), ("MC_Pair", 10000), ("MC_Prompt", 5000)]
+    if T:
+        runs = [("MC_Core", 100000)] + runs
+    for cfg, floor in runs:
+        r = ctx.tlc(SPEC, "SyncMachine", cfg=cfg + sfx, label=cfg + sfx, timeout=ctx.pick(600, 3000))
         if r.distinct < floor:
             ctx.broken("%s explored only %d states" % (cfg, r.distinct))
     if T:
@@ -94,7 +97,7 @@ def pipeline(ctx, T, bg_mc, bg_blocks):
     # 3. behaviours for replay
     rnd = random.Random(ctx.seed)
     beh = []
-    for cfg, num in (("Gen_Sim1", ctx.pick(120, 1500)), ("Gen_Sim2", ctx.pick(60, 800))):
+    for cfg, num in (("Gen_Sim1", ctx.pick(120, 1200)), ("Gen_Sim2", ctx.pick(60, 600))):
         g = ctx.tlc(SPEC, "Gen_SyncMachine", cfg=cfg, mode="simulate", num=num, depth=400, workers=1,
                     label=cfg, dump_trace=False, timeout=ctx.pick(300, 1800))
         b = ctx.read_emitted(g, "behaviours.ndjson")
@@ -106,7 +109,8 @@ def pipeline(ctx, T, bg_mc, bg_blocks):
         ex = ctx.read_emitted(g, "behaviours.ndjson")
         if len(ex) < 1000:
             ctx.broken("Gen_Exh produced only %d behaviours" % len(ex))
-        beh += ex
+        ctx.note("Gen_Exh: %d behaviours enumerated (every behaviour of 1-2 state protocols with one delivery), 6000 sampled for replay" % len(ex))
+        beh += rnd.sample(ex, min(len(ex), 6000))
     acts = {}
     for b in beh:
         for s in b["steps"]:
@@ -122,7 +126,7 @@ def pipeline(ctx, T, bg_mc, bg_blocks):
     ctx.extra["replay_actions"] = acts
     # 4. replay + free-running runs on the real machine (one test binary)
     go = ctx.gotest(PKG, "^TestVerif_C14_(Replay|Free)$", ["c14_test.go"], inputs={"behaviours.ndjson": beh},
-                    env={"VERIF_RUNS": ctx.pick(120, 1500)}, label="state", timeout=ctx.pick(600, 3000))
+                    env={"VERIF_RUNS": ctx.pick(120, 600)}, label="state", timeout=ctx.pick(600, 3000))
     ctx.absorb(go)
     hung = (go.reports.get("free", {}).get("extra") or {}).get("hung")
     if hung and not ctx.violations:
